@@ -241,24 +241,28 @@ Definition cround (tol : Q) (h o : cond) : Prop :=
 Definition binop_eqb (a b : binop) : bool :=
   match a, b with OAdd, OAdd | OSub, OSub | OMul, OMul | ODiv, ODiv => true | _, _ => false end.
 
+(* ([if] instead of && / ||: vm_compute is call-by-value and would evaluate every alternative) *)
 Fixpoint eround_b (tol : Q) (h o : expr) : bool :=
-  match h, o with
-  | ENum p, ENum q => Qle_bool (Qabs (p - q)) tol
-  | EVar v, EVar w => String.eqb v w
-  | EBin op a b, EBin op' a' b' => binop_eqb op op' && eround_b tol a a' && eround_b tol b b'
-  | _, _ => false
-  end
-  || match h with
-     | EBin OAdd a b => (vanishing tol a && eround_b tol b o) || (vanishing tol b && eround_b tol a o)
-     | _ => false
-     end
-  || (vanishing tol h && match o with ENum q => Qeq_bool q 0 | _ => false end).
+  if match h, o with
+     | ENum p, ENum q => Qle_bool (Qabs (p - q)) tol
+     | EVar v, EVar w => String.eqb v w
+     | EBin op a b, EBin op' a' b' =>
+         if binop_eqb op op' then if eround_b tol a a' then eround_b tol b b' else false else false
+     | _, _ => false
+     end then true
+  else if match h with
+          | EBin OAdd a b =>
+              if (if vanishing tol a then eround_b tol b o else false) then true
+              else if vanishing tol b then eround_b tol a o else false
+          | _ => false
+          end then true
+  else if vanishing tol h then match o with ENum q => Qeq_bool q 0 | _ => false end else false.
 
 Definition cmp_eqb (a b : cmp) : bool :=
   match a, b with CLe, CLe | CGe, CGe | CLt, CLt | CGt, CGt | CEq, CEq => true | _, _ => false end.
 
 Definition cround_b (tol : Q) (h o : cond) : bool :=
-  cmp_eqb (c_op h) (c_op o) && eround_b tol (c_l h) (c_l o) && eround_b tol (c_r h) (c_r o).
+  if cmp_eqb (c_op h) (c_op o) then if eround_b tol (c_l h) (c_l o) then eround_b tol (c_r h) (c_r o) else false else false.
 
 (* ------------------------------------------------------------------ "mid" conditions and rounding *)
 (* what an output condition is a rounding of: a condition of which the output is a structural rounding (in
@@ -292,8 +296,12 @@ Definition rounded (d : nat) (m : mcond) (o : cond) : Prop :=
   end.
 
 (* ------------------------------------------------------------------ matching one input condition with one output *)
-Definition first_some {A B} (f : A -> option B) (l : list A) : option B :=
-  fold_right (fun a acc => match f a with Some b => Some b | None => acc end) None l.
+(* (written with [match] so that evaluation stops at the first success: vm_compute is call-by-value) *)
+Fixpoint first_some {A B} (f : A -> option B) (l : list A) : option B :=
+  match l with
+  | [] => None
+  | a :: r => match f a with Some b => Some b | None => first_some f r end
+  end.
 
 Definition mono_in (m : mono) (p : poly) : bool := existsb (fun t => mono_eqb m (snd t)) p.
 
@@ -338,29 +346,32 @@ Definition lead (p : poly) : option Q := match pclean p with t :: _ => Some (fst
 Definition diff (c : cond) : expr := EBin OSub (c_l c) (c_r c).
 
 Definition match_exact (c o : cond) : bool :=
-  cmp_eqb (c_op c) (c_op o) &&
-  let (nc, dc) := rnorm (diff c) in
-  let (no, dn) := rnorm (diff o) in
-  let a := pmul no dc in
-  let b := pmul nc dn in
-  let ks := 1 :: match lead a, lead b with Some x, Some y => [Qred (x / y)] | _, _ => [] end in
-  existsb (fun k => scale_ok (c_op c) k && is_zero (pclean (psub a (pscale k b)))) ks
-  || match c_op c with
-     | CEq => let ks' := 1 :: match lead no, lead nc with Some x, Some y => [Qred (x / y)] | _, _ => [] end in
-              existsb (fun k => negb (Qeq_bool k 0) && is_zero (pclean (psub no (pscale k nc)))) ks'
-     | _ => false
-     end.
+  if cmp_eqb (c_op c) (c_op o) then
+    let (nc, dc) := rnorm (diff c) in
+    let (no, dn) := rnorm (diff o) in
+    let a := pmul no dc in
+    let b := pmul nc dn in
+    let ks := 1 :: match lead a, lead b with Some x, Some y => [Qred (x / y)] | _, _ => [] end in
+    if existsb (fun k => if scale_ok (c_op c) k then is_zero (pclean (psub a (pscale k b))) else false) ks then true
+    else match c_op c with
+         | CEq => let ks' := 1 :: match lead no, lead nc with Some x, Some y => [Qred (x / y)] | _, _ => [] end in
+                  existsb (fun k => if Qeq_bool k 0 then false else is_zero (pclean (psub no (pscale k nc)))) ks'
+         | _ => false
+         end
+  else false.
 
 (* c is an input condition, eqs the equalities that may be used, o an output condition, hs candidate "hints":
    conditions of which o might be a structural rounding (untrusted, supplied by the harness; o itself is always
    tried) *)
 Definition match_cond (d : nat) (eqs hs : list cond) (c o : cond) : option mcond :=
+  if negb (cmp_eqb (c_op c) (c_op o)) then None else       (* nothing below can match: saves the work *)
   first_some (fun sq =>
     match match_poly d (apply_seq sq c) o with
     | Some m => Some m
     | None =>
-        first_some (fun h => if cround_b (tol_of d) h o && match_exact (apply_seq sq c) (apply_seq sq h)
-                             then Some (MExact h) else None) (o :: hs)
+        first_some (fun h => if cround_b (tol_of d) h o
+                             then if match_exact (apply_seq sq c) (apply_seq sq h) then Some (MExact h) else None
+                             else None) (o :: hs)
     end) (subst_seqs eqs).
 
 (* an equality that holds for every valuation may be omitted *)
@@ -376,12 +387,12 @@ Definition cmp_b (o : cmp) (x y : Q) : bool :=
   | CLt => negb (Qle_bool y x) | CGt => negb (Qle_bool x y) | CEq => Qeq_bool x y
   end.
 
-(* both sides are constant polynomials and the comparison holds *)
+(* wherever the condition is defined, the difference of its sides is the constant k (as rational functions:
+   numerator = k * denominator) and the comparison of k with 0 holds *)
 Definition const_holds (c : cond) : bool :=
-  match pnorm (c_l c), pnorm (c_r c) with
-  | Some l, Some r => match as_const l, as_const r with Some x, Some y => cmp_b (c_op c) x y | _, _ => false end
-  | _, _ => false
-  end.
+  let (n, dn) := rnorm (diff c) in
+  let k := match lead n, lead dn with Some x, Some y => Qred (x / y) | _, _ => 0 end in
+  if is_zero (pclean (psub n (pscale k dn))) then cmp_b (c_op c) k 0 else false.
 
 (* a condition that may be omitted because the equalities [eqs] imply it: after eliminating fluents by them it is a
    comparison of constants that holds *)
@@ -426,9 +437,10 @@ Definition rounds_to (d : nat) (m : mcond) (o : cond) : bool :=
 Definition check_pre (d : nat) (hs conds out : list cond) : bool :=
   let eqs := filter is_eq conds in
   let use := fun c => if is_eq c then [] else eqs in
-  let f := fun c => cover d (use c) hs out c in
-  forallb (fun c => match f c with [] => trivial c || implied (use c) c | _ => true end) conds &&
-  forallb (fun o => existsb (fun m => rounds_to d m o) (flat_map f conds)) out.
+  let covers := map (fun c => (c, cover d (use c) hs out c)) conds in     (* computed once *)
+  let mids := flat_map snd covers in
+  forallb (fun cc => match snd cc with [] => trivial (fst cc) || implied (use (fst cc)) (fst cc) | _ => true end) covers &&
+  forallb (fun o => existsb (fun m => rounds_to d m o) mids) out.
 
 (* one inequality under explicitly given assumptions (simplify_inequality's own interface); None of the library
    (the inequality was omitted) is judged by [implied] *)
@@ -446,7 +458,7 @@ Definition check_expr (d : nat) (hs : list expr) (e o : expr) : bool :=
   | Some p, Some q => close_b (tol_of d) p q
   | _, _ => false
   end
-  || existsb (fun h => eround_b (tol_of d) h o && equiv_b e h) (o :: hs).
+  || existsb (fun h => if eround_b (tol_of d) h o then equiv_b e h else false) (o :: hs).
 
 (* ------------------------------------------------------------------ reading printed text back *)
 (* restricted grammar: number | ( name arg* ) | ( op e e ) with op one of + - * /;
